@@ -29,6 +29,9 @@ type Env struct {
 	// loop invariants only: the state at loop entry and its locals, for entry(e)
 	entrySt    *State
 	entryLocal func(name string) (SVal, bool)
+	// oldLocal: name resolution inside old(...) when the function is a closure verified on its own:
+	// its captured variables are heap cells of the enclosing frame and are read in the entry state
+	oldLocal func(name string) (SVal, bool)
 	// when elaborating a pure-function body in probe mode
 	probing map[string]bool
 }
@@ -244,6 +247,20 @@ func (e *Env) elab(x SExpr) SVal {
 							return e.pkgObject(obj)
 						}
 					}
+				}
+			}
+		}
+		if ix, ok := x.X.(SIndex); ok {
+			// s[i].f on a slice of flat structs: the per-field element heap
+			if sv, ok := e.tryElab(ix.X); ok && sv.Typ != nil && sv.T != nil {
+				if sl, ok := sv.Typ.Underlying().(*types.Slice); ok && sortOf(sl.Elem()) == nil {
+					for _, f := range flatStructFields(sl.Elem()) {
+						if f.Name() == x.Name {
+							h := e.p.elemFieldHeap(sl.Elem(), f)
+							return SVal{T: At(Select(e.cur.H(e.p, h), SBase(sv.T)), SOff(sv.T), e.elab(ix.I).T), Typ: f.Type()}
+						}
+					}
+					efail("no field %s in element type %s", x.Name, sl.Elem())
 				}
 			}
 		}
@@ -602,7 +619,11 @@ func (e *Env) call(x SCall) SVal {
 		n := *e
 		n.cur = e.old
 		// old() changes the heap that is read; local variables keep their
-		// current values (parameters are bound to their entry values anyway)
+		// current values (parameters are bound to their entry values anyway);
+		// captured variables of a closure verified on its own are shared cells: entry value
+		if e.oldLocal != nil {
+			n.local = e.oldLocal
+		}
 		return n.elab(x.Args[0])
 	case "entry":
 		// entry(e): e evaluated in the state at the entry of the loop whose
@@ -1127,4 +1148,18 @@ func ghostFieldHeap(p *Program, name string, isArray bool) string {
 	h := "GF:" + name
 	p.registerHeap(h, ArraySort(SInt, SInt))
 	return h
+}
+
+// tryElab: elab that reports failure instead of raising it
+func (e *Env) tryElab(x SExpr) (v SVal, ok bool) {
+	defer func() {
+		if r := recover(); r != nil {
+			if _, isE := r.(elabErr); isE {
+				ok = false
+				return
+			}
+			panic(r)
+		}
+	}()
+	return e.elab(x), true
 }
